@@ -23,9 +23,9 @@ import (
 // PlyCase: N splats, which optional attributes are present, how many f_rest_* harmonics, value family.
 type PlyCase struct {
 	N      int `json:"n"`
-	Mask   int `json:"mask"`   // bit0 Normal, bit1 FDC, bit2 Scale, bit3 Rotation, bit4 Opacity
-	Rest   int `json:"rest"`   // number of f_rest_k attributes (k = 0..Rest-1)
-	Family int `json:"family"` // value family (2 = non-periodic ladder values)
+	Mask   int `json:"mask"`             // bit0 Normal, bit1 FDC, bit2 Scale, bit3 Rotation, bit4 Opacity
+	Rest   int `json:"rest"`             // number of f_rest_k attributes (k = 0..Rest-1)
+	Family int `json:"family"`           // value family (2 = non-periodic ladder values)
 	Reader int `json:"reader,omitempty"` // io.Reader behaviour handed to ply.ReadMesh
 }
 
